@@ -671,8 +671,13 @@ fn shl(a: Fr, b: Fr) -> Fr {
     }
 
     let n = b.into_bigint().0[0] as u32;
-    let a = a.into_bigint();
-    Fr::from_bigint(a << n).unwrap()
+    // circom: (a << n) masked to the bit size of the field, then reduced modulo p
+    let mut r = a.into_bigint() << n;
+    r.0[3] &= (1u64 << (Fr::MODULUS_BIT_SIZE - 192)) - 1;
+    if r >= Fr::MODULUS {
+        r.sub_with_borrow(&Fr::MODULUS);
+    }
+    Fr::from_bigint(r).unwrap()
 }
 
 fn shr(a: Fr, b: Fr) -> Fr {
